@@ -7,7 +7,7 @@ PROPS = {"C12": dict(
           "deletion, object swaps, objects of another log, other-width tiles, entry swaps/rotation/duplication/removal/substitution, changed index/timestamp/type/issuer hash, "
           "changes to unauthenticated fields only, the whole other log), arbitrary start offsets, consumer breaks and resumption; SCTs assembled field by field with one defect; "
           "served checkpoints with one defect; non-trivial = a tampered object was consulted by the call, or the SCT/checkpoint differs from the genuine one in exactly one field; "
-          "distinct = hash of the canonical case descriptor; also: single-bit tampers of leaf-index/timestamp fields in served leaves, SCT timestamp bit flips, SCT index plus k*2^32, checkpoints with a foreign signature-algorithm byte"),
+          "distinct = hash of the canonical case descriptor; also: single-bit tampers of leaf-index/timestamp fields in served leaves, SCT timestamp bit flips, SCT index plus k*2^32, checkpoints with a foreign signature-algorithm byte; after a successful Entry/CheckInclusion the same client is asked about the same position under a second tree head (another log, every object authentic)"),
     assumptions=["vfref renders RFC 6962 leaves, the Merkle tree and the Static CT tile layout correctly (cross-checked by C10 and vfref's own tests)",
                  "crypto/ecdsa and crypto/rsa verify correctly; SHA-256 is collision resistant"],
     technique="adversarial tile-server model with ground-truth comparison",
